@@ -1,6 +1,7 @@
 package interpreter
 
 import (
+	"encoding/json"
 	"sync"
 	"time"
 
@@ -354,7 +355,11 @@ func VerifC15ConsoleRaces() {
 	dbg := NewECALDebugger(scope.NewScope(scope.GlobalScope))
 	erp.Debugger = dbg
 	dbg.BreakOnError(false)
-	ast, err := parser.ParseWithRuntime("t", "a := 1\nb := a + 1\nc := b + 1\n", erp)
+	prog := "a := 1\nb := a + 1\nc := b + 1\n"
+	if zz.Param("MUTEX", 0) == 1 {
+		prog = "a := 1\nmutex m {\n  b := a + 1\n}\nmutex n {\n  c := b + 1\n}\n"
+	}
+	ast, err := parser.ParseWithRuntime("t", prog, erp)
 	zz.Assert(err == nil && ast.Runtime.Validate() == nil, "C15.setup")
 	if zz.Bool("breakpointSetBeforehand") {
 		dbg.HandleInput("break t:3")
@@ -371,8 +376,11 @@ func VerifC15ConsoleRaces() {
 		ast.Runtime.Eval(vs, make(map[string]interface{}), 7)
 	}()
 	go func() {
-		dbg.HandleInput(c15ConsoleCmds[c1])
-		dbg.HandleInput(c15ConsoleCmds[c2])
+		// the console encodes every result, as the debug server does
+		r1, _ := dbg.HandleInput(c15ConsoleCmds[c1])
+		json.Marshal(r1)
+		r2, _ := dbg.HandleInput(c15ConsoleCmds[c2])
+		json.Marshal(r2)
 		dbg.HandleInput("cont 7 resume") // in case the thread suspended at the breakpoint just set
 		dbg.StopThreads(0)
 		wg.Done()
